@@ -11,6 +11,10 @@ package posix
 //@   at-call io.NewSectionReader {C13} [section-inside-object] requires 0 <= $1 && 0 <= $2 && $1 + $2 <= objSize
 //@   at-call fmt.Sprintf {C13} [content-range-fields] when $0 == "bytes %v-%v/%v" :: requires len($1) == 3 \
 //@        && as($1[0], int64) == startOffset && as($1[1], int64) == startOffset + length - 1 && as($1[2], int64) == objSize
+// a satisfiable range names at least one byte of the object that is served (a directory object has none)
+//@   at-call fmt.Sprintf {C13} [a-satisfiable-range-is-not-empty] when $0 == "bytes %v-%v/%v" :: requires 0 <= startOffset && 1 <= length && startOffset + length <= objSize
+// the size the range is clipped to is the size of the file that is opened: one stat, of the path that is opened
+//@   at-call os.Open {C13} [the-file-opened-is-the-file-measured] requires called("os.Stat") && $0 == arg("os.Stat", 0) && objSize == result("os.Stat", 0).Size()
 //@   at-return {C13} [content-length-is-section] when err == nil :: ensures *ret0.ContentLength == length
 //@   at-return {C13} [content-range-iff-valid] when err == nil :: ensures (*ret0.ContentRange != "") <==> isValid
 //@   at-return {C13} [whole-file-only-for-whole-object] when err == nil && typeIs(ret0.Body, *os.File) :: ensures startOffset == 0 && length == objSize
